@@ -9,4 +9,14 @@ namespace Luqum.PyPrim
 /-- `s.split(c)` for a one-character separator -/
 def splitOn (c : Char) (s : Str) : List Str := splitOnChar c s
 
+/-- the keyword arguments `visit_word` / `visit_phrase` hand to `es_item_factory.build`: the E-class, the text (`q=` or
+`phrase=`), `method=` when given, `fields=`, `_name=` -/
+structure LeafArgs where
+  cls : String
+  q : Str
+  method : Option Str
+  fields : List Str
+  name : Option Str
+deriving Repr
+
 end Luqum.PyPrim
